@@ -18,7 +18,7 @@ def rgs(n):
 def run(tier, seed):
     thorough = tier == 'thorough'
     cases = [Case('errors', 'crypto', 'zzC02_errors', []), Case('cancel', 'crypto', 'zzC02_cancel', [])]
-    opts = {'map_order_all': True}
+    opts = {'map_order_all': True, 'coord_axioms': True}
     for n in ((1, 2, 3, 4) if thorough else (1, 2, 3)):
         pats = rgs(n)
         for kp in pats:
